@@ -20,6 +20,14 @@ impl FromStr for W64 {
     }
 }
 
+/// makes W64 a type with neutral elements (0 and 1), as the overloaded operators of deep
+/// expressions may require
+impl From<u8> for W64 {
+    fn from(x: u8) -> W64 {
+        W64(x as i64)
+    }
+}
+
 type B = fn(W64, W64) -> W64;
 type U = fn(W64) -> W64;
 
